@@ -34,6 +34,59 @@ def schedules(K):
     }
 
 
+def defaults_job():
+    """Ground part: solvers built with the DEFAULT SolverParameters (one default object shared by every such Solver) next to a solver of a
+    high-dimensional problem; the same concrete run before and after must coincide."""
+    st = agp.setup()
+    mods = st['mods']
+    agp.use_queue_stub(False)
+
+    def h(ex):
+        P = an.problem_class(mods)
+
+        def run2(n_iter=6):
+            f = an.prefix_function(1, 2)
+            p = P(2, *an.NBOXES[2], lambda ys, i: f([float(y) for y in ys]))
+            s = mods.solver.Solver(p)                      # default parameters
+            s.DoGlobalIteration(n_iter)
+            return [(list(map(float, pt)), float(v)) for pt, v in p.done], s.evolvent.evolventDensity, s.parameters
+        before, dens0, par0 = run2()
+        for N in (6, 7):
+            f6 = an.prefix_function(2, N)
+            p6 = P(N, [-1.0] * N, [1.0 + 0.1 * c for c in range(N)], lambda ys, i: f6([float(y) for y in ys]))
+            s6 = mods.solver.Solver(p6)                    # default parameters again: the same default object
+            s6.DoGlobalIteration(2)
+        after, dens1, par1 = run2()
+        ex.prove(before == after and dens0 == dens1, 'C12 DEFAULTS: a solver built with the default parameters is not affected by other solvers built with them',
+                 {'level': 'defaults', 'density_before': dens0, 'density_after': dens1})
+        ex.tag('default-parameters')
+    ex = agp.exact_explorer('DEFAULTS')
+    ex.explore(h)
+    return agp.summary(ex, 'default SolverParameters shared by solvers of 2, 6 and 7 variables (ground)', None, {'level': 'defaults', 'N': 2})
+
+
+DEFAULTS_REPLAY = r'''
+import os, sys
+sys.path.insert(0, os.environ.get('IOPT_REPO', '/repo'))
+sys.path.insert(1, %(verif)r)
+from harness import agpnative as an
+mods = an.load(); P = an.problem_class(mods)
+def run2():
+    f = an.prefix_function(1, 2)
+    p = P(2, *an.NBOXES[2], lambda ys, i: f([float(y) for y in ys]))
+    s = mods.solver.Solver(p); s.DoGlobalIteration(6)
+    return [(list(map(float, pt)), float(v)) for pt, v in p.done], s.evolvent.evolventDensity
+b, d0 = run2()
+for N in (6, 7):
+    f6 = an.prefix_function(2, N)
+    s6 = mods.solver.Solver(P(N, [-1.0] * N, [1.0 + 0.1 * c for c in range(N)], lambda ys, i: f6([float(y) for y in ys]))); s6.DoGlobalIteration(2)
+a, d1 = run2()
+if a != b or d0 != d1:
+    print('REPRODUCED C12 DEFAULTS: the same 2-D run with default parameters differs after solvers of 6 and 7 variables were built (density %%r -> %%r)' %% (d0, d1)); sys.exit(1)
+sys.exit(0)
+'''
+
+
 def plans(run):
     quick = run.quick
     out = []
@@ -55,6 +108,7 @@ def plans(run):
         variants = [{'script': [('iter', 2), ('solve',)], 'sibling': None}]
         for name, (script, alone) in schedules(2).items():
             variants.append({'script': script, 'sibling': 'same', 'sibling_alone_script': alone})
+        variants.append({'script': schedules(2)['lock-step'][0], 'sibling': 'other', 'sibling_alone_script': schedules(2)['lock-step'][1]})
         cfg = dict(base, N=2, r=2.5, seed=sd, kpre=1, nsym=3, iters_limit=3, eps=1e-9, density=2, variants=variants, tags=['two-dimensional'])
         out.append((cfg, 'N=2 f#%d: 1 concrete + 2 arbitrary values; other N=2 solver on a different box, 3 schedules vs alone' % sd))
     # both solvers refine their result (minimize contract stub): the Solution kept by the first must survive the second's refinement
@@ -72,17 +126,27 @@ def main():
     run = report.Runner(PID, design_ref='5/C12')
     agp.describe(run, what=('method', 'process', 'solver', 'search_data'))
     agp.describe_stubs(run)
-    jobs = [(job, p) for p in plans(run)]
+    jobs = [(job, p) for p in plans(run)] + [(defaults_job, ())]
     run.bound(runs='main solver: up to 6 trials (reachable prefix of 0..4 concrete values + 2 arbitrary values), N in {1,2}; other solver: same '
                    'dimension and density on a different box, or another dimension; schedules lock-step / other-first / blocks with the other '
                    'solver also run to its end; Solutions kept from Solve and re-read afterwards')
     run.stub('scipy.optimize.minimize -> MinimizeStub (one arbitrary point inside the bounds) in the refinement family')
     run.not_covered('three or more solvers; the real Nelder-Mead (contract stub, see C05); threads')
     run.parallel(jobs)
+    for r_, c in list(run.candidates()):
+        if c['detail'].get('level') == 'defaults':
+            rp = run.write_replay('defaults', DEFAULTS_REPLAY % {'verif': report.VERIF})
+            ok, out = run.run_replay(rp)
+            if ok:
+                run.confirmed('C12:defaults', (out or '').strip()[-300:], rp)
+            else:
+                run.unconfirmed(c['label'], (out or '')[-200:])
+    for r_ in run.jobs:
+        r_['cex'] = [x for x in r_.get('cex', []) if x['detail'].get('level') != 'defaults']
     agp.confirm(run, WANT)
     run.finish('with another solver created and iterated in between under every listed schedule, each solver makes the trials it makes alone, '
                'its record and result are unchanged and a Solution obtained earlier still reports its own optimum',
-               vacuity=['compose', 'symbolic-values', 'sibling-same', 'sibling-other', 'two-dimensional', 'with-refinement'])
+               vacuity=['compose', 'symbolic-values', 'sibling-same', 'sibling-other', 'two-dimensional', 'with-refinement', 'default-parameters'])
 
 
 if __name__ == '__main__':
